@@ -88,6 +88,21 @@ def bb84_game():
     return np.array([[0.5, 0], [0, 0.5]]), pred
 
 
+def disguise(rng, prob, pred, pad_a, pad_b):
+    """The same extended game with relabelled answers: every answer alphabet is permuted per question and padded with answers whose
+    predicate operator is zero.  All values are invariant; useful answers end up at arbitrary (also the highest) indices."""
+    d, _, a, b, x, y = pred.shape
+    out = np.zeros((d, d, a + pad_a, b + pad_b, x, y), dtype=pred.dtype)
+    pas = [rng.permutation(a + pad_a) for _ in range(x)]
+    pbs = [rng.permutation(b + pad_b) for _ in range(y)]
+    for ix in range(x):
+        for iy in range(y):
+            for ia in range(a):
+                for ib in range(b):
+                    out[:, :, pas[ix][ia], pbs[iy][ib], ix, iy] = pred[:, :, ia, ib, ix, iy]
+    return prob.copy(), out
+
+
 def _constant_only(prob, pred):
     _, _, a, b, x, y = pred.shape
     return max(ref.eigmax(sum(prob[i, j] * pred[:, :, ia, ib, i, j] for i in range(x) for j in range(y))) for ia in range(a) for ib in range(b))
@@ -137,6 +152,18 @@ def _run_ext(ctx, spec, rng):
         cplx = bool(r % 2)
         prob, pred = ext_game(rng, d, a, b, x, y, cplx)
         name = "random"
+    base_vals = None
+    if r % 2 == 1 or (r == 0 and ctx.seed % 2 == 1):
+        # the same game in disguise (answers relabelled per question, padded with zero-predicate answers): values must not change
+        g0 = ExtendedNonlocalGame(prob.copy(), pred.copy())
+        base_vals = (_solve(ctx, g0.nonsignaling_value), _solve(ctx, g0.commuting_measurement_value_upper_bound, 1))
+        pad_a, pad_b = [(1, 0), (0, 1), (1, 1), (2, 0)][(r // 2) % 4]
+        if (a + pad_a) * x + (b + pad_b) * y <= 10:
+            prob, pred = disguise(rng, prob, pred, pad_a, pad_b)
+            a, b = a + pad_a, b + pad_b
+            name = name + f"+disguised-pad{pad_a}{pad_b}"
+        else:
+            base_vals = None
     game = ctx.call(ExtendedNonlocalGame, prob.copy(), pred.copy())
     if game is FAILED:
         return
@@ -168,13 +195,20 @@ def _run_ext(ctx, spec, rng):
             ctx.check("O2:qlb<=NPA", qlb <= v + TOL, dev=max(0.0, qlb - v), tol=TOL, sig=sig + (str(k),), nt=nt, mech="ext-npa:below-quantum-lower-bound", detail=det)
         if ns is not None:
             ctx.check("O2:NPA<=NS", v <= ns + TOL, dev=max(0.0, v - ns), tol=TOL, sig=sig + (str(k),), nt=nt, mech="ext-npa:above-nonsignaling", detail=det)
+    if base_vals is not None:
+        if base_vals[0] is not None and ns is not None:
+            ctx.check("O2:values-invariant-under-relabelling", abs(ns - base_vals[0]) <= TOL, dev=abs(ns - base_vals[0]), tol=TOL, sig=sig + ("ns",), nt=True,
+                      mech="ext-ns:changes-under-answer-relabelling-or-padding", detail=dict(det, original_game_value=base_vals[0]))
+        if base_vals[1] is not None and npa.get(1) is not None:
+            ctx.check("O2:values-invariant-under-relabelling", abs(npa[1] - base_vals[1]) <= TOL, dev=abs(npa[1] - base_vals[1]), tol=TOL, sig=sig + ("npa1",), nt=True,
+                      mech="ext-npa:changes-under-answer-relabelling-or-padding", detail=dict(det, original_game_value=base_vals[1]))
     if npa.get(1) is not None and npa.get("1+ab") is not None:
         ctx.check("O2:NPA-monotone", npa["1+ab"] <= npa[1] + TOL, sig=sig, nt=nt, mech="ext-npa:not-monotone", detail=det)
     if ns is not None:
         ctx.check("O2:unent<=NS", unent_ref <= ns + TOL, sig=sig, nt=nt, mech="ext-ns:below-unentangled", detail=det)
         if qlb is not None:
             ctx.check("O2:qlb<=NS", qlb <= ns + TOL, sig=sig, nt=nt, mech="ext-ns:below-quantum-lower-bound", detail=det)
-    if name == "bb84":
+    if name.startswith("bb84"):
         c = np.cos(np.pi / 8) ** 2
         for nm, v in (("qlb", qlb), ("npa1", npa.get(1)), ("ns", ns)):
             if v is not None:
